@@ -194,12 +194,13 @@ impl Commands {
             None => name,
         };
 
-        match self.commands.remove(command_name) {
-            Some(command) => {
-                let aliases = command.aliases();
-                for alias in &aliases {
-                    self.aliases.remove(alias);
-                }
+        let command_name = command_name.to_string();
+
+        match self.commands.remove(&command_name) {
+            Some(_) => {
+                // remove the aliases which point to the removed command (an alias the command
+                // was registered with may meanwhile belong to another command)
+                self.aliases.retain(|_, value| *value != command_name);
 
                 true
             }
